@@ -129,3 +129,29 @@ where
 
     sm.get_multi(&cmd.keys).map_err(|e| ReadActorError::SmError(e.to_string()))
 }
+
+/// Verification hook (compiled only with `--cfg d_engine_verif`; add-only): runs the private `serve_read` on a
+/// `LeaseRead` command so an out-of-tree harness can observe the fast path's lease test.
+/// `Ok(n)` = served locally (n values); `Err(kind)` = which `ReadActorError`.
+#[cfg(d_engine_verif)]
+pub fn verif_serve_lease_read<SM>(
+    lease: &Arc<ReadLease>,
+    sm: &Arc<SM>,
+    keys: Vec<Bytes>,
+) -> Result<usize, &'static str>
+where
+    SM: StateMachine,
+{
+    let (reply, _rx) = oneshot::channel();
+    let cmd = ReadCmd {
+        keys,
+        consistency: ReadConsistencyPolicy::LeaseRead,
+        reply,
+    };
+    match serve_read(&cmd, lease, sm) {
+        Ok(v) => Ok(v.len()),
+        Err(ReadActorError::LeaseInvalid) => Err("lease-invalid"),
+        Err(ReadActorError::SmStopped) => Err("sm-stopped"),
+        Err(ReadActorError::SmError(_)) => Err("sm-error"),
+    }
+}
